@@ -55,6 +55,17 @@ theorem trace_tx_shape {cfg : OCfg} (hdb : DbContract) (env : OEnv) (evMax : Nat
       ∀ dst b, OOut.tx dst b ∈ outs → TxShape cfg dst b :=
   @Dnp3.Proofs.C12.trace_tx_shape cfg hdb env evMax hsol hunsol inputs
 
+/-- the database model (`Dnp3.Model.Database`) meets the contract every theorem here assumes of it:
+    response writers never exceed the capacity they are given (`Dnp3.Proofs.Database`) -/
+theorem db_contract : DbContract := Dnp3.Proofs.C12.dbContract
+
+/-- `trace_tx_shape` with the database contract discharged: unconditional over the whole model -/
+theorem trace_tx_shape_closed {cfg : OCfg} (env : OEnv) (evMax : Nat) (hsol : 10 ≤ cfg.sol)
+    (hunsol : 4 ≤ cfg.unsol) (inputs : List OInput) :
+    ∀ outs ∈ (Outstation.start cfg evMax).2 :: (Outstation.run env (Outstation.start cfg evMax).1 inputs).2,
+      ∀ dst b, OOut.tx dst b ∈ outs → TxShape cfg dst b :=
+  trace_tx_shape db_contract env evMax hsol hunsol inputs
+
 /-- **solicited_correlated** (idle path): whatever `handle_one_request_from_idle` appends to the
     output is callbacks plus at most one transmission, and that transmission is correlated with
     the request (this includes the echo of a stored response for a repeated request, by the invariant) -/
